@@ -177,6 +177,7 @@ const prelude = `(set-option :produce-models true)
 (declare-fun str_of_bytes (Int) Str)
 (declare-const str_empty Str)
 (assert (= (str_len str_empty) 0))
+(assert (forall ((s Str)) (! (and (<= 0 (str_len s)) (<= (str_len s) 9223372036854775807)) :pattern ((str_len s)))))
 (declare-const fn_nil Fn)
 (declare-const f64_zero F64)
 (define-fun wrap_s64 ((x Int)) Int (let ((m (mod x 18446744073709551616))) (ite (>= m 9223372036854775808) (- m 18446744073709551616) m)))
